@@ -8,10 +8,11 @@ import "github.com/cloudwego/frugal"
 const hooksAvailable = true
 
 var (
-	hkResolve  = frugal.VerifResolve
-	hkSpan     = frugal.VerifSpan
-	hkBitset   = frugal.VerifBitset
-	hkDescMap  = frugal.VerifDescMap
-	hkUnknown  = frugal.VerifUnknown
-	hkDispatch = frugal.VerifDispatch
+	hkResolve    = frugal.VerifResolve
+	hkSpan       = frugal.VerifSpan
+	hkBitset     = frugal.VerifBitset
+	hkDescMap    = frugal.VerifDescMap
+	hkUnknown    = frugal.VerifUnknown
+	hkUnknownOps = frugal.VerifUnknownOps
+	hkDispatch   = frugal.VerifDispatch
 )
